@@ -431,20 +431,26 @@ def foreign_types(R, v, allow_conv, out, seen, depth=0):
         out.append(t.__module__ + "." + t.__qualname__)
 
 
-def active_class_dicts(lit, out, depth=0):
-    """class-tagged dicts the decoder must act upon: reachable from the top through list/tuple/set/untagged dicts"""
+def active_class_dicts(lit, out, depth=0, reg=()):
+    """class-tagged dicts the decoder must act upon: reachable from the top through list/tuple/set/untagged dicts, and the
+    `exception` member of an (unregistered) Pyro5.core._ExceptionWrapper dict, which dict_to_class re-creates itself"""
     if depth > 80:
         return
     t = type(lit)
     if t in (list, tuple, set):
         for x in lit:
-            active_class_dicts(x, out, depth + 1)
+            active_class_dicts(x, out, depth + 1, reg)
     elif t is dict:
         if "__class__" in lit:
             out.append(lit)
+            tag = tag_text(lit["__class__"])
+            if tag == "Pyro5.core._ExceptionWrapper" and tag not in reg:
+                ex = lit.get("exception")
+                if type(ex) is dict and "__class__" in ex:
+                    active_class_dicts(ex, out, depth + 1, reg)
         else:
             for x in lit.values():
-                active_class_dicts(x, out, depth + 1)
+                active_class_dicts(x, out, depth + 1, reg)
 
 
 def call_parts(ser, lit):
@@ -580,11 +586,11 @@ def check_property(ctx, R, case, ser, op, data, reg, lit, base_events, res):
                  dict(casej, sig="foreign-type"))
     act = []
     if op == "loads":
-        active_class_dicts(lit, act)
+        active_class_dicts(lit, act, 0, reg)
     else:
         parts = call_parts(ser, lit)
         for p in parts or []:
-            active_class_dicts(p, act)
+            active_class_dicts(p, act, 0, reg)
     for d in act:
         tag = tag_text(d.get("__class__"))
         if tag is None:
